@@ -105,7 +105,7 @@ def d2(cx: Cx, ob: Ob) -> None:
                         witness=f"{show(c)[:100]}",
                         detail=f"capture-ctor:{tg[1][0]}",
                     )
-                if op(c[1]) == "attr" and callee_name(c) == "add_record" and c[2] and _add_record_keeps_argument(cx):
+                if op(c[1]) == "attr" and callee_name(c) == "add_record" and c[2] and _add_record_keeps_argument(cx, c):
                     owner = o.tag(c[1][1])
                     rec = o.tag(c[2][0])
                     if rec is not None and rec[0] in ("B", "S") and owner is not None and not (owner[0] == "CB" and owner[1] == rec[1]):
@@ -125,20 +125,30 @@ def d2(cx: Cx, ob: Ob) -> None:
 _KEEPS: dict = {}
 
 
-def _add_record_keeps_argument(cx: Cx) -> bool:
+def _add_record_keeps_argument(cx: Cx, call=None) -> bool:
     """Does Converter.add_record put the Record OBJECT it is given into self.records (True on the pinned tree), or
-    a deep copy it makes itself?  (_merge only reads the incoming record.)"""
+    a deep copy it makes itself?  (_merge only reads the incoming record.)  With ``call``: as THAT call runs it -
+    append paths whose tests of a flag parameter disagree with the literal the call passes are not taken."""
     _KEEPS = cx.model.__dict__.setdefault("_memo_keeps", {})  # per model object: ids are reused after collection
-    key = "add_record"
+    fn = cx.model.functions.get("curies.api.Converter.add_record")
+    bound = {}
+    if call is not None and fn is not None:
+        b_ = bind_args(fn, call, recv=call[1][1] if op(call[1]) == "attr" else None)
+        bound = {k: v for k, v in (b_ or {}).items() if is_const(v)}
+    key = ("add_record", tuple(sorted((k, repr(v)) for k, v in bound.items())))
     if key in _KEEPS:
         return _KEEPS[key]
-    fn = cx.model.functions.get("curies.api.Converter.add_record")
     keeps = True
     if fn is not None and len(fn.params) > 1:
-        s = cx.summary(fn)
+        s = cx.summary(fn, full=True)
         me = ("param", fn.self_name)
         rec = ("param", fn.params[1].name)
-        apps = [ev.a[2][-1] for ev, _ in s.walk() if ev.kind == "expr" and op(ev.a) == "call" and op(ev.a[1]) == "attr" and ev.a[1][2] in ("append", "insert") and ev.a[1][1] == ("attr", me, "records") and ev.a[2]]
+        apps = []
+        for ev, ctx in s.walk():
+            if ev.kind == "expr" and op(ev.a) == "call" and op(ev.a[1]) == "attr" and ev.a[1][2] in ("append", "insert") and ev.a[1][1] == ("attr", me, "records") and ev.a[2]:
+                feasible = all(not (g.kind == "guard" and op(g.a) == "param" and g.a[1] in bound and bool(bound[g.a[1]][1]) != bool(g.b)) for g in ctx.guards)
+                if feasible:
+                    apps.append(ev.a[2][-1])
         if apps:
             keeps = not all(op(a) == "call" and ((callee_name(a) == "model_copy" and is_const(dict(a[3]).get("deep"), True) and a[1][1] == rec) or (a[1] == ("ext", "copy.deepcopy") and a[2][:1] == (rec,))) for a in apps)
     _KEEPS[key] = keeps
